@@ -1,5 +1,34 @@
-import Hive.Base.Proto
-open Hive.Proto
+import Hive.Model.C12aShrink
+import Hive.Model.C12aRandomMap
+import Hive.Model.C12aHeap
+import Hive.Model.C12aQueue
+import Hive.Model.C12aRing
+import Hive.Model.C12aStack
+/-!
+Driver for C12 part A: the first token of a request selects the container model
+(`shrink | rmap | gh | pq | tpq | queue | ring | stack`), the rest is that model's request.
+-/
+open Hive.C12a
 
-/-- Placeholder driver: answers `unimplemented` to every request. -/
-def main : IO Unit := run () (fun s _ => (s, "unimplemented"))
+structure All where
+  shrink : Shrink.DSt := Shrink.dinit
+  rmap : RMap.St := RMap.init
+  gh : Heap.St := Heap.init false
+  pq : Heap.St := Heap.init false
+  tpq : Heap.St := Heap.init true
+  queue : Queue.St := Queue.init 1
+  ring : Ring.St := Ring.init 1
+  stack : Stack.St := Stack.init
+
+def stepAll (a : All) : List String → All × String
+  | "shrink" :: t => let r := Shrink.stepLine a.shrink t; ({ a with shrink := r.1 }, r.2)
+  | "rmap" :: t => let r := RMap.stepLine a.rmap t; ({ a with rmap := r.1 }, r.2)
+  | "gh" :: t => let r := Heap.stepGH a.gh t; ({ a with gh := r.1 }, r.2)
+  | "pq" :: t => let r := Heap.stepPQ false a.pq t; ({ a with pq := r.1 }, r.2)
+  | "tpq" :: t => let r := Heap.stepPQ true a.tpq t; ({ a with tpq := r.1 }, r.2)
+  | "queue" :: t => let r := Queue.stepLine a.queue t; ({ a with queue := r.1 }, r.2)
+  | "ring" :: t => let r := Ring.stepLine a.ring t; ({ a with ring := r.1 }, r.2)
+  | "stack" :: t => let r := Stack.stepLine a.stack t; ({ a with stack := r.1 }, r.2)
+  | _ => (a, "bad-op")
+
+def main : IO Unit := Hive.Proto.run ({} : All) stepAll
